@@ -461,79 +461,93 @@ func c27Pebble(calls []c27Op, wantDump []byte, wantProofs []bool) string {
 func TestVerif_C27(t *testing.T) {
 	r := verifmc.NewReport("C27", "slot-equivocation", "model_checking")
 	defer r.Write()
-	// quick: one pruning round (slots up to 1006, slotNow up to 2006); thorough adds slot 2006 /
-	// slotNow 3006, which reaches a second pruning round from first-saved 1005/1006.
-	slots := verifmc.Pick([]uint64{5, 6, 1005, 1006}, []uint64{5, 6, 1005, 1006, 2006})
-	nows := verifmc.Pick([]uint64{5, 6, 1004, 1005, 1006, 2004, 2005, 2006}, []uint64{5, 6, 1004, 1005, 1006, 2004, 2005, 2006, 3006})
-	nSigners := verifmc.Pick(2, 3)
+	// quick: one pruning round (slots up to 1006, slotNow up to 2006), 2 signers, depth 4.
+	// thorough: pass 1 = the quick alphabet to depth 5; pass 2 = slot 2006 / slotNow 3006 added (second
+	// pruning round from first-saved 1005/1006) and a third signer, to depth 4.
+	type c27Pass struct {
+		slots, nows []uint64
+		nSigners    int
+		depth       int
+	}
+	small := c27Pass{[]uint64{5, 6, 1005, 1006}, []uint64{5, 6, 1004, 1005, 1006, 2004, 2005, 2006}, 2, 4}
+	passes := []c27Pass{small}
+	if verifmc.Thorough() {
+		small.depth = 5
+		passes = []c27Pass{small, {[]uint64{5, 6, 1005, 1006, 2006}, []uint64{5, 6, 1004, 1005, 1006, 2004, 2005, 2006, 3006}, 3, 4}}
+	}
 	nHeaders := 3
-	depth := verifmc.Pick(4, 5)
-	r.Rule = fmt.Sprintf("BFS over all sequences of <=%d CheckEquivocation calls on the real SlotState: slotNow in %v x slot in %v x 3 headers (two differing only in the seal, one without digest) x %d signers (two differing in one byte); a call is non-trivial when it passes both window gates; every call is compared with a window model (retention 1000, pruning 2000) and with the literal clauses of the statement; every distinct state is re-executed once on the real in-memory Pebble and results + table contents compared",
-		depth, nows, slots, nSigners)
+	r.Rule = "BFS over all sequences of CheckEquivocation calls on the real SlotState, per pass: slotNow x slot x 3 headers (two differing only in the seal, one without digest) x signers (two differing in one byte); a call is non-trivial when it passes both window gates; every call is compared with a window model (retention 1000, pruning 2000) and with the literal clauses of the statement; every distinct state is re-executed once on the real in-memory Pebble and results + table contents compared; passes:"
 	r.Assumption("exploration runs the real SlotState over a map-backed database.Database; every distinct reached state is re-validated on the real in-memory Pebble (results and table contents)")
-	var ops []verifmc.Op
-	for _, now := range nows {
-		for _, sl := range slots {
-			for h := 0; h < nHeaders; h++ {
-				for g := 0; g < nSigners; g++ {
-					ops = append(ops, c27Op{now, sl, h, g})
+	var pebbleRuns int64
+	for pi, pass := range passes {
+		slots, nows, nSigners, depth := pass.slots, pass.nows, pass.nSigners, pass.depth
+		r.Rule += fmt.Sprintf(" [%d] <=%d calls, slotNow in %v, slot in %v, %d signers;", pi+1, depth, nows, slots, nSigners)
+		var ops []verifmc.Op
+		for _, now := range nows {
+			for _, sl := range slots {
+				for h := 0; h < nHeaders; h++ {
+					for g := 0; g < nSigners; g++ {
+						ops = append(ops, c27Op{now, sl, h, g})
+					}
 				}
 			}
 		}
-	}
-	var seenMu sync.Mutex
-	seen := map[[32]byte]struct{}{}
-	var pebbleRuns int64
-	h := &verifmc.Hist[*c27State]{
-		Fresh: c27Fresh,
-		Ops:   func(*c27State) []verifmc.Op { return ops },
-		Apply: func(s *c27State, op verifmc.Op) string { return c27Apply(s, op.(c27Op)) },
-		Check: func(s *c27State) string {
-			r.Outcome(s.class)
-			dbs, ms := c27DBSlots(s.db), s.m.slotsString()
-			if dbs == ms {
-				r.Outcome("table-keys==model-slots")
-			} else {
-				r.Outcome("table-keys!=model-slots")
-			}
-			r.Distinct(ms)
-			// once per distinct state: the same calls on the real Pebble
-			dump := s.db.dump()
-			key := sha256.Sum256(append(append([]byte{}, dump...), s.m.canon()...))
-			seenMu.Lock()
-			_, ok := seen[key]
-			if !ok {
-				seen[key] = struct{}{}
-				pebbleRuns++
-			}
-			seenMu.Unlock()
-			if !ok {
-				// recompute the proof verdicts of the map-backed run from the model (they agreed so far)
-				m := &c27Model{slots: map[uint64][]c27Entry{}}
-				proofs := make([]bool, len(s.calls))
-				for i, o := range s.calls {
-					proofs[i], _, _ = m.check(o)
+		var seenMu sync.Mutex
+		seen := map[[32]byte]struct{}{}
+		h := &verifmc.Hist[*c27State]{
+			Fresh: c27Fresh,
+			Ops:   func(*c27State) []verifmc.Op { return ops },
+			Apply: func(s *c27State, op verifmc.Op) string { return c27Apply(s, op.(c27Op)) },
+			Check: func(s *c27State) string {
+				r.Outcome(s.class)
+				dbs, ms := c27DBSlots(s.db), s.m.slotsString()
+				if dbs == ms {
+					r.Outcome("table-keys==model-slots")
+				} else {
+					r.Outcome("table-keys!=model-slots")
 				}
-				if d := c27Pebble(s.calls, dump, proofs); d != "" {
-					return "harness:pebble-and-map-backed-runs-differ|" + d
+				r.Distinct(ms)
+				// once per distinct state: the same calls on the real Pebble
+				dump := s.db.dump()
+				key := sha256.Sum256(append(append([]byte{}, dump...), s.m.canon()...))
+				seenMu.Lock()
+				_, ok := seen[key]
+				if !ok {
+					seen[key] = struct{}{}
+					pebbleRuns++
 				}
-			}
-			return ""
-		},
-		Canon: func(s *c27State) []byte {
-			return append(append(s.db.dump(), '|'), s.m.canon()...)
-		},
-		Sig: func(hist []verifmc.Op, desc string) string {
-			if i := strings.Index(desc, "|"); i > 0 && !strings.HasPrefix(desc, "panic") {
-				return desc[:i]
-			}
-			if strings.HasPrefix(desc, "panic") {
-				return "CheckEquivocation:panic:" + verifmc.PanicSite(desc)
-			}
-			return "CheckEquivocation:wrong-result"
-		},
-		Depth: depth,
+				seenMu.Unlock()
+				if !ok {
+					// recompute the proof verdicts of the map-backed run from the model (they agreed so far)
+					m := &c27Model{slots: map[uint64][]c27Entry{}}
+					proofs := make([]bool, len(s.calls))
+					for i, o := range s.calls {
+						proofs[i], _, _ = m.check(o)
+					}
+					if d := c27Pebble(s.calls, dump, proofs); d != "" {
+						return "harness:pebble-and-map-backed-runs-differ|" + d
+					}
+				}
+				return ""
+			},
+			Canon: func(s *c27State) []byte {
+				return append(append(s.db.dump(), '|'), s.m.canon()...)
+			},
+			Sig: func(hist []verifmc.Op, desc string) string {
+				if i := strings.Index(desc, "|"); i > 0 && !strings.HasPrefix(desc, "panic") {
+					return desc[:i]
+				}
+				if strings.HasPrefix(desc, "panic") {
+					return "CheckEquivocation:panic:" + verifmc.PanicSite(desc)
+				}
+				return "CheckEquivocation:wrong-result"
+			},
+			Depth: depth,
+		}
+		h.Explore(r)
+		if r.Expired() {
+			break
+		}
 	}
-	h.Explore(r)
 	r.Add("states_revalidated_on_pebble", pebbleRuns)
 }
